@@ -324,10 +324,21 @@ structure RowValues where
   rate : Option Dec
   deriving Repr, Inhabited
 
-/-- the part of the loop body after the fields were read: builds the `Txn` (`Txn::new` … `res.push(txn)`). -/
-def buildTxn (env : CsvEnv) (cfg : CsvCfg) (fm : FieldMap) (rec : List String) (v : RowValues) :
-    Outcome ImportErr (Txn × Bool) :=
-  let fragment := extract env.cap cfg.rewrite (csvRecord v.payee v.category v.secondaryCommodity)
+/-- the rewrite rules' verdict on the record (`extractor.extract(Record {..})`) -/
+def rowFragment (env : CsvEnv) (cfg : CsvCfg) (v : RowValues) : Fragment :=
+  extract env.cap cfg.rewrite (csvRecord v.payee v.category v.secondaryCommodity)
+
+/-- the conversion in force for the record: the rule's, else the configured default when rate, secondary
+amount and secondary commodity are all present; none when it is `disabled`. -/
+def selectedConversion (env : CsvEnv) (cfg : CsvCfg) (v : RowValues) : Option Conversion :=
+  let defaultConversion :=
+    if v.rate.isSome && v.secondaryAmount.isSome && v.secondaryCommodity.isSome then some cfg.conversion else none
+  ((rowFragment env cfg v).conversion.or defaultConversion).filter fun x => !x.disabled
+
+/-- the loop body from `Txn::new` up to the charge (everything before the conversion block). -/
+def baseTxn (env : CsvEnv) (cfg : CsvCfg) (fm : FieldMap) (rec : List String) (v : RowValues) :
+    Outcome ImportErr Txn :=
+  let fragment := rowFragment env cfg v
   let payee := fragment.payee.getD v.payee
   let txn := Txn.new v.date payee ⟨v.amount, v.commodity⟩
   let txn := (txn.codeOption fragment.code).destAccountOption fragment.account
@@ -341,34 +352,32 @@ def buildTxn (env : CsvEnv) (cfg : CsvCfg) (fm : FieldMap) (rec : List String) (
       | some b => txn.setBalance ⟨b, v.commodity⟩
       | none => txn
     match fm.extract .charge rec with
-    | .ok charge =>
-      let withCharge : Outcome ImportErr Txn :=
-        match charge with
-        | none => .ok txn
-        | some ch =>
-          match cfg.operator with
-          | none => .err (.invalidConfig "config should have operator to have charge")
-          | some op =>
-            match strToCommaDecimal env ch with
-            | .ok (some value) => if !value.isZero then .ok (txn.addCharge op ⟨value, v.commodity⟩) else .ok txn
-            | .ok none => .ok txn
-            | .err e => .err e
-            | .panic s => .panic s
-            | .fuelOut => .fuelOut
-      match withCharge with
-      | .ok txn =>
-        let defaultConversion :=
-          if v.rate.isSome && v.secondaryAmount.isSome && v.secondaryCommodity.isSome then some cfg.conversion else none
-        let conversion := (fragment.conversion.or defaultConversion).filter fun x => !x.disabled
-        match conversion with
-        | some conv => applyConversion txn conv v.amount v.commodity v.rate v.secondaryAmount v.secondaryCommodity
-        | none => .ok (txn, false)
-      | .err e => .err e
-      | .panic s => .panic s
-      | .fuelOut => .fuelOut
+    | .ok none => .ok txn
+    | .ok (some ch) =>
+      match cfg.operator with
+      | none => .err (.invalidConfig "config should have operator to have charge")
+      | some op =>
+        match strToCommaDecimal env ch with
+        | .ok (some value) => if !value.isZero then .ok (txn.addCharge op ⟨value, v.commodity⟩) else .ok txn
+        | .ok none => .ok txn
+        | .err e => .err e
+        | .panic s => .panic s
+        | .fuelOut => .fuelOut
     | .err e => .err e
     | .panic s => .panic s
     | .fuelOut => .fuelOut
+  | .err e => .err e
+  | .panic s => .panic s
+  | .fuelOut => .fuelOut
+
+/-- the part of the loop body after the fields were read: builds the `Txn` (`Txn::new` … `res.push(txn)`). -/
+def buildTxn (env : CsvEnv) (cfg : CsvCfg) (fm : FieldMap) (rec : List String) (v : RowValues) :
+    Outcome ImportErr (Txn × Bool) :=
+  match baseTxn env cfg fm rec v with
+  | .ok txn =>
+    match selectedConversion env cfg v with
+    | some conv => applyConversion txn conv v.amount v.commodity v.rate v.secondaryAmount v.secondaryCommodity
+    | none => .ok (txn, false)
   | .err e => .err e
   | .panic s => .panic s
   | .fuelOut => .fuelOut
